@@ -103,6 +103,7 @@ func alphaRich() qcheck.Alpha {
 	a.EnqPast = false
 	a.Deq = []qcheck.DeqSpec{{Batch: 2, TTL: ttl}, {Batch: 100, TTL: ttl}, {Route: "/r1", Batch: 1, TTL: ttl}}
 	a.LeaseOps = []string{"ack", "nack", "nackd", "dead"}
+	a.LeaseBatch = true // batch settlements incl. a delayed batch nack that names an already expired lease
 	a.Operator = []string{"requeue", "cancel", "resume", "rqdead"}
 	a.Ticks = []time.Duration{ttl, 5 * sec}
 	return a
